@@ -22,10 +22,11 @@ theorem finish_meta {c : Cfg} {n : Node} (ws : List SW) (sh : SHeader) (d : Data
       right
       generalize hb : (Block.mk _ _ _ : Block) = nb
       generalize hs1 : n.store.apply (.saveBlock (n.store.height + 1) nb) = s1
-      obtain ⟨_, a2, _, _⟩ := applyAll_setHeightW s1 (n.store.height + 1)
+      generalize hs2 : s1.apply (.updateState _) = s2
+      obtain ⟨_, a2, _, _⟩ := applyAll_setHeightW s2 (n.store.height + 1)
       refine ⟨nb, ?_, ?_⟩
-      · show (Store.apply _ _).getBlock _ = _
-        rw [getBlock_updateState, a2, ← hs1]
+      · show (Store.applyAll _ _).getBlock _ = _
+        rw [a2, ← hs2, getBlock_updateState, ← hs1]
         exact getBlock_saveBlock_same _ _ _
       · rw [← hb]; simp
 
